@@ -24,10 +24,23 @@ B. preprocess(records, PsdPreProcessingSettings)
    mean-removed series; everything else against the explicit (matrix) DFT of
    the detrended, tapered, zero-padded series.
 
-Every call gets fresh recordings, fresh settings and fresh fft_settings dicts:
-process() tapers its inputs in place (C09) and writes the FFT length back.
+C. / D. histories  use - edit - use [- edit - use]  on ONE settings object (C: process() with
+   PsdProcessingSettings / HvsrDiffuseFieldProcessingSettings, D: preprocess() with
+   PsdPreProcessingSettings): the quantifier runs over tapers, smoothing, responses, ... and
+   not over the past of the object that carries them.  All sequences c1, c2[, c3] of
+   configurations within a deviation bound, crossed (length 2) with the manner of the edit
+   (assign | item assignment in place | Settings.load), of the carry (same object | deepcopy)
+   and an optional refused call in between.  The last use is judged by the oracles of A / B.
+
+In A and B every call gets fresh recordings, fresh settings and fresh fft_settings dicts:
+process() tapers its inputs in place (C09) and writes the FFT length back.  In C and D the
+recordings are fresh for every use, the settings object is the one under test.
 """
+import copy
 import math
+import os
+import shutil
+import tempfile
 import traceback
 
 import numpy as np
@@ -100,7 +113,9 @@ K_QUICK = 3          # deviation bound of the quick tier (both spaces)
 
 
 def fft_request(name):
-    """A FRESH fft_settings value for every call."""
+    """A FRESH fft_settings value for every call (a name of the alphabet or an explicit length)."""
+    if isinstance(name, int):
+        return {"n": int(name)}
     return {"none": {"n": None}, "default": None, "n65536": {"n": 65536}}[name]
 
 
@@ -171,8 +186,8 @@ def make_records(windows, dt):
             for w in windows]
 
 
-def call_process(windows, dt, taper, fft, out):
-    """Execute the real code on fresh objects.  Returns (result, n reported by hvsrpy)."""
+def build_settings(dt, taper, fft, out):
+    """A FRESH processing-settings object for output ``out`` = "psd:off" | "psd:<op>" | "diffuse:<op>"."""
     kind, op = out.split(":")
     if kind == "psd":
         s = PsdProcessingSettings(window_type_and_width=["tukey", taper],
@@ -182,9 +197,18 @@ def call_process(windows, dt, taper, fft, out):
         s = HvsrDiffuseFieldProcessingSettings(window_type_and_width=["tukey", taper],
                                                smoothing=smoothing_spec(op, dt),
                                                fft_settings=fft_request(fft))
+    return s
+
+
+def reported_n(s):
+    return s.fft_settings.get("n") if isinstance(s.fft_settings, dict) else None
+
+
+def call_process(windows, dt, taper, fft, out):
+    """Execute the real code on fresh objects.  Returns (result, n reported by hvsrpy)."""
+    s = build_settings(dt, taper, fft, out)
     res = hvsrpy.process(make_records(windows, dt), s)
-    n = s.fft_settings.get("n") if isinstance(s.fft_settings, dict) else None
-    return res, n
+    return res, reported_n(s)
 
 
 def expected_n(L, fft):
@@ -205,7 +229,7 @@ def ref_smooth(op, freqs, rows, spec):
     fcs = spec["center_frequencies_in_hz"]
     key = (op, len(freqs), float(freqs[1]), tuple(fcs), spec["bandwidth"])
     if key not in _W_CACHE:
-        if len(_W_CACHE) > 40:
+        if len(_W_CACHE) > 80:
             _W_CACHE.clear()
         W, knife = RK.matrix(op, [float(f) for f in freqs], fcs, spec["bandwidth"])
         _W_CACHE[key] = ([np.nonzero(W[c])[0] for c in range(len(fcs))], W, knife)
@@ -235,9 +259,11 @@ class RootA:
     def __init__(self, root, ctx):
         self.root = root
         self.ctx = ctx
-        f = root["fixed"]
+        f = self.fixed = root["fixed"]
         self.L, self.dt, self.sigs, self.count, self.fft = (f["L"], f["dt"], f["sigs"],
                                                            f["count"], f["fft"])
+        self.always_welch = False    # part C: compare a single window with a fresh-object PSD too
+        self.aux_ok = True           # part C: fresh-object calls with the same FFT length exist
         self.unsm = {}           # (taper, scale) -> unsmoothed PSD result of all windows
         self.single = {}         # (i, taper, scale) -> unsmoothed PSD result of window i
         self.diffuse1 = {}       # (taper, operator) -> diffuse-field amplitudes at scale 1
@@ -282,8 +308,11 @@ class RootA:
         return self.diffuse1[key]
 
     # -- reporting -------------------------------------------------------------
+    def mark(self, case):
+        return dict(part="A", fixed=self.fixed, case=case)
+
     def viol(self, key, case, **kw):
-        detail = dict(case=case, fixed=self.root["fixed"], sigset=SIGSETS[self.sigs],
+        detail = dict(case=case, fixed=self.fixed, sigset=SIGSETS[self.sigs],
                       construction="window i = signal triple rotated by i, gain (1+i/2)*scale; "
                                    "signals from hvmc.alphabets.signal(name, L)")
         detail.update(kw.pop("detail", {}))
@@ -347,7 +376,7 @@ class RootA:
         for ci, c in enumerate(COMPONENTS):
             amp = np.asarray(res[c].amplitude, dtype=float)
             frq = np.asarray(res[c].frequency, dtype=float)
-            if len(amp) != nb or len(frq) != nb or not close(frq, [k * df for k in range(nb)],
+            if len(amp) != nb or len(frq) != nb or not close(frq, np.arange(nb, dtype=float) * df,
                                                              rtol=1e-12, atol=1e-12 * fnyq):
                 self.viol("C17:process(psd):one-sided-grid", case, expected=dict(bins=nb, df=df),
                           observed=dict(len_amp=len(amp), len_frq=len(frq), first=_sig(frq)),
@@ -356,7 +385,7 @@ class RootA:
                 ok = False
                 continue
             # (1) Parseval, from the frequencies hvsrpy returns
-            interior = [k for k in range(nb) if 0.0 < frq[k] < fnyq * (1 - 1e-12)]
+            interior = (frq > 0.0) & (frq < fnyq * (1 - 1e-12))
             lhs = math.fsum(amp[interior].tolist()) * df
             per_window = [RP.parseval_rhs(win[ci].tolist(), w, n) for win in windows]
             rhs = math.fsum(per_window) / len(per_window)
@@ -382,11 +411,14 @@ class RootA:
         if not ok:
             return
         ctx.count("validated")
-        ctx.nontrivial_case(dict(part="A", fixed=self.root["fixed"], case=case))
+        ctx.nontrivial_case(self.mark(case))
         ctx.outcome(("psd", sig))
         amps = dict((c, np.asarray(res[c].amplitude, dtype=float)) for c in COMPONENTS)
+        if not self.aux_ok:
+            ctx.count("history_aux_unavailable")
+            return
         # (2) Welch: several windows -> mean of the single-window PSDs
-        if self.count > 1:
+        if self.count > 1 or self.always_welch:
             singles = [self.single_window(i, taper, scale) for i in range(self.count)]
             bad = [s for s in singles if isinstance(s, Exception)]
             if bad:
@@ -424,7 +456,7 @@ class RootA:
                                   explanation=f"{c}: PSD of {scale} * x is not {scale}^2 times the PSD of x")
                         break
         if ctx.counters["validated"] <= 2:
-            ctx.sample(dict(part="A", fixed=self.root["fixed"], case=case, n=n,
+            ctx.sample(dict(self.mark(case), n=n,
                             band_power=sig))
 
     def expected_smoothed(self, case, kind, op):
@@ -460,6 +492,9 @@ class RootA:
 
     def judge_smoothed(self, case, res, op):
         ctx = self.ctx
+        if not self.aux_ok:
+            ctx.count("history_aux_unavailable")
+            return
         exp = self.expected_smoothed(case, "psd", op)
         if exp is None:
             self.raised(case, self.unsmoothed(case["taper"], case["scale"]), "unsmoothed call")
@@ -493,11 +528,14 @@ class RootA:
                                       "to the unsmoothed PSD of the same windows")
                 return
         ctx.count("validated")
-        ctx.nontrivial_case(dict(part="A", fixed=self.root["fixed"], case=case))
+        ctx.nontrivial_case(self.mark(case))
         ctx.outcome(("spsd", op, _sig(res["vt"].amplitude)))
 
     def judge_diffuse(self, case, res, op):
         ctx = self.ctx
+        if not self.aux_ok:
+            ctx.count("history_aux_unavailable")
+            return
         exp = self.expected_smoothed(case, "diffuse", op)
         if exp is None:
             self.raised(case, self.unsmoothed(case["taper"], case["scale"]), "unsmoothed call")
@@ -546,11 +584,11 @@ class RootA:
         if not close(amp[keep], hv[keep] ** 2, rtol=1e-6):
             ctx.count("variant_no_sqrt_differs")
         ctx.count("validated")
-        ctx.nontrivial_case(dict(part="A", fixed=self.root["fixed"], case=case))
+        ctx.nontrivial_case(self.mark(case))
         ctx.outcome(("diffuse", op, _sig(amp)))
         if ctx.counters["diffuse_sampled"] < 1:
             ctx.count("diffuse_sampled")
-            ctx.sample(dict(part="A", fixed=self.root["fixed"], case=case, hvsr=_sig(amp)))
+            ctx.sample(dict(self.mark(case), hvsr=_sig(amp)))
 
 
 def sub_cases(space, root_dims, fixed, k):
@@ -602,43 +640,65 @@ def op_class(differentiate, response):
     return r + ("+differentiate" if differentiate else "")
 
 
+def make_itf(resp):
+    """A FRESH InstrumentTransferFunction (or None) from a response_spec() dict."""
+    if resp is None:
+        return None
+    return InstrumentTransferFunction([complex(*p) for p in resp["poles"]],
+                                      [complex(*z) for z in resp["zeros"]],
+                                      resp["sensitivity"], resp["normalization"])
+
+
+def pre_inputs(signal, offset, L, dt):
+    """(series[r][c] = (samples, sinusoid components or None), FRESH records) of one preprocess call."""
+    series = [[pre_series(signal, offset, L, r, c) for c in range(3)] for r in range(2)]
+    records = [SeismicRecording3C(*[TimeSeries(np.array(x, dtype=float), dt) for x, _ in rec])
+               for rec in series]
+    return series, records
+
+
+def build_pre_settings(dt, fft, taper, response, differentiate, detrend):
+    """A FRESH PsdPreProcessingSettings object (orientation, filter, splitting switched off)."""
+    return PsdPreProcessingSettings(orient_to_degrees_from_north=None,
+                                    filter_corner_frequencies_in_hz=[None, None],
+                                    window_length_in_seconds=None,
+                                    detrend=detrend,
+                                    window_type_and_width=["tukey", taper],
+                                    fft_settings=fft_request(fft),
+                                    instrument_transfer_function=make_itf(response_spec(response, dt)),
+                                    differentiate=differentiate)
+
+
 class RootB:
     def __init__(self, root, ctx):
         self.root = root
         self.ctx = ctx
-        f = root["fixed"]
+        f = self.fixed = root["fixed"]
         self.L, self.dt, self.fft, self.taper, self.response = (f["L"], f["dt"], f["fft"],
                                                                f["taper"], f["response"])
         self.resp = response_spec(self.response, self.dt)
 
+    def mark(self, case):
+        return dict(part="B", fixed=self.fixed, case=case)
+
     def viol(self, key, case, **kw):
-        detail = dict(case=case, fixed=self.root["fixed"], response=self.resp,
+        detail = dict(case=case, fixed=self.fixed, response=self.resp,
                       construction="record r, component c: see hvmc.checks.c17.pre_series; settings: "
                                    "orient None, no filter, window_length None")
         detail.update(kw.pop("detail", {}))
         self.ctx.violation(key, self.root, detail=detail, **kw)
 
     def case(self, case):
+        self.ctx.count("states")
+        series, records = pre_inputs(case["signal"], case["offset"], self.L, self.dt)
+        s = build_pre_settings(self.dt, self.fft, self.taper, self.response,
+                               case["differentiate"], case["detrend"])
+        self.execute(case, series, records, s)
+
+    def execute(self, case, series, records, s):
+        """preprocess(records, s) on the real code and every oracle of part B on its result."""
         ctx = self.ctx
-        ctx.count("states")
-        L, dt = self.L, self.dt
-        series = [[pre_series(case["signal"], case["offset"], L, r, c) for c in range(3)]
-                  for r in range(2)]
-        records = [SeismicRecording3C(*[TimeSeries(np.array(x, dtype=float), dt) for x, _ in rec])
-                   for rec in series]
-        itf = None
-        if self.resp is not None:
-            itf = InstrumentTransferFunction([complex(*p) for p in self.resp["poles"]],
-                                             [complex(*z) for z in self.resp["zeros"]],
-                                             self.resp["sensitivity"], self.resp["normalization"])
-        s = PsdPreProcessingSettings(orient_to_degrees_from_north=None,
-                                     filter_corner_frequencies_in_hz=[None, None],
-                                     window_length_in_seconds=None,
-                                     detrend=case["detrend"],
-                                     window_type_and_width=["tukey", self.taper],
-                                     fft_settings=fft_request(self.fft),
-                                     instrument_transfer_function=itf,
-                                     differentiate=case["differentiate"])
+        L = self.L
         cls = op_class(case["differentiate"], self.response)
         ctx.count("transitions")
         try:
@@ -652,7 +712,7 @@ class RootB:
             self.viol("C17:psd_preprocess:record-count", case, expected=2, observed=len(out),
                       explanation="window_length_in_seconds=None must give one output per input record")
             return
-        n = s.fft_settings.get("n") if isinstance(s.fft_settings, dict) else None
+        n = reported_n(s)
         if not isinstance(n, int) or n < L:
             n = expected_n(L, self.fft)
         G = RP.make_gain(case["differentiate"], self.resp)
@@ -672,12 +732,13 @@ class RootB:
                 sig.append("%.6g" % float(got[1]))
         if ok:
             ctx.count("validated")
-            ctx.nontrivial_case(dict(part="B", fixed=self.root["fixed"], case=case))
+            ctx.nontrivial_case(self.mark(case))
             ctx.outcome(("pre", cls, sig))
             if ctx.counters["pre_sampled"] < 2 and cls != "identity":
                 ctx.count("pre_sampled")
-                ctx.sample(dict(part="B", fixed=self.root["fixed"], case=case, n=n, op=cls,
+                ctx.sample(dict(self.mark(case), n=n, op=cls,
                                 first_samples=_sig(getattr(out[0], "vt").amplitude)))
+        return ok
 
     def finish(self, y, detrend):
         return RP.demean(y) if detrend == "constant" else [float(v) for v in y]
@@ -784,6 +845,413 @@ def run_root_b(root, ctx, tier):
 
 
 # ---------------------------------------------------------------------------
+# parts C and D: histories of  use / edit / use  on ONE settings object
+#
+# The statement quantifies over tapers, window counts, smoothing, responses, ... - not over the
+# past of the settings object that carries them.  A history is a sequence of configurations
+# c1, c2[, c3]; the settings object is built for c1 and used; before every further use it is
+# edited (only the attributes whose value changes) to the next configuration, the recordings of
+# that use are fresh.  The LAST use of every history is judged by the oracles of part A / B of
+# its configuration; the enumerated set is prefix closed (a history of length 1 is a case of
+# part A / B), so every use of every history is judged once.  Auxiliary results of the oracles
+# (unsmoothed / single-window / scale-1 PSDs) come from fresh settings objects.
+
+OUT_C = {"psd": ["off", "konno_and_ohmachi", "linear_triangular"],
+         "diffuse": ["konno_and_ohmachi", "parzen", "log_rectangular"]}
+SPACE_C = {                 # "out" is filled in per kind of settings object
+    "taper": [0.1, 0.0, 1.0, 0.5],
+    "out": None,
+    "fft": ["none", "default", "n65536"],
+    "L": [16, 33, 64],
+    "dt": [0.01, 0.05],
+    "count": [1, 2],
+    "scale": [1.0, -3.0],
+    "sigs": ["S0", "P342"],
+}
+# how the object gets from one use to the next
+MANNER_C = {
+    "edit": ["assign", "inplace", "load"],      # new attribute values | item assignment into the stored
+                                                # list / dicts | Settings.load() of a saved fresh object
+    "carry": ["same", "deepcopy"],              # the used object itself | copy.deepcopy of the used object
+    "interlude": ["none", "refused"],           # a call refused for an unknown window type, then repaired
+}
+MANNER_D = {"edit": ["assign", "inplace"], "carry": ["same", "deepcopy"], "interlude": ["none", "refused"]}
+# bounds of the history spaces per tier: deviations of c1 from the default configuration for
+# histories of length 2 / 3; deviations of (c2, manner) from (c1, default manner) for length 2;
+# deviations of c2 from c1 and of c3 from c2 for length 3 (default manner)
+HIST = {"quick": dict(first2=1, first3=0, step2=2, step3=1),
+        "thorough": dict(first2=2, first3=1, step2=2, step3=1)}
+# part D, quick: three of the six responses; signal and offset vary in c1 only
+RESPONSES_D_QUICK = ["none", "flat", "geophone"]
+INPUT_ONLY_D = ("signal", "offset")
+MAX_JUDGES = 12
+
+
+def space_c(kind, tier):
+    sp = dict(SPACE_C)
+    sp["out"] = list(OUT_C[kind])
+    if tier != "thorough":
+        sp["taper"] = sp["taper"][:3]
+    return sp
+
+
+def around(space, c):
+    """``space`` with the value of configuration c first in every dimension."""
+    return {d: [c[d]] + [v for v in vals if v != c[d]] for d, vals in space.items()}
+
+
+def default_manner(manners):
+    return {m: v[0] for m, v in manners.items()}
+
+
+def space_d(tier):
+    sp = dict(SPACE_B)
+    sp["signal"] = ["noise", "C0", "C1", "C2"]      # broadband first: every bin of a later use carries energy
+    if tier != "thorough":
+        sp["response"] = list(RESPONSES_D_QUICK)
+    return sp
+
+
+def step_dims_d(tier):
+    return [d for d in SPACE_B if tier == "thorough" or d not in INPUT_ONLY_D]
+
+
+def histories(space, step_dims, manners, first, length, k):
+    """Every (configurations, manner) of the root (first, length): see the comment above.
+    Dimensions outside step_dims keep the value they have in ``first``."""
+    sub = {d: space[d] for d in step_dims}
+    if length == 2:
+        full = around(sub, first)
+        full.update(manners)
+        for t in product.deviations(full, k):
+            yield [first, dict(first, **{d: t[d] for d in sub})], {m: t[m] for m in manners}
+    else:
+        for t2 in product.deviations(around(sub, first), k):
+            c2 = dict(first, **t2)
+            for t3 in product.deviations(around(sub, c2), k):
+                yield [first, c2, dict(c2, **t3)], default_manner(manners)
+
+
+def n_histories(space, step_dims, manners, length, k):
+    sub = {d: space[d] for d in step_dims}
+    if length == 2:
+        full = dict(sub)
+        full.update(manners)
+        return product.size(full, k)
+    return product.size(sub, k) ** 2
+
+
+def edit_list_attr(s, name, value, mode):
+    cur = getattr(s, name)
+    if mode == "inplace" and isinstance(cur, list) and len(cur) == len(value):
+        for i, v in enumerate(value):
+            cur[i] = v
+    else:
+        setattr(s, name, value)
+
+
+def edit_fft(s, request, mode):
+    if mode == "inplace" and isinstance(s.fft_settings, dict) and isinstance(request, dict):
+        for k_, v in request.items():
+            s.fft_settings[k_] = v
+    else:
+        s.fft_settings = request
+
+
+def refused_call(s, call, ctx):
+    """The user mistypes the window type; the call is refused (or not - not C17's business)."""
+    s.window_type_and_width = ["no_such_window", 0.3]
+    try:
+        call(s)
+        ctx.count("interlude_call_not_refused")
+    except Exception:                   # noqa: BLE001
+        ctx.count("refused_calls")
+
+
+def reused_key(key):
+    parts = key.split(":")
+    if len(parts) > 2 and (parts[1].startswith("process(") or parts[1] == "psd_preprocess"):
+        parts.insert(2, "reused-settings")
+    return ":".join(parts)
+
+
+HISTORY_TEXT = ("settings object built for history[0] and used; before each later use: carry (same object | "
+                "deepcopy), interlude (none | refused call with an unknown window type), edit of the attributes "
+                "that change (assign | inplace | load); fresh recordings for every use; the LAST use is judged; ")
+
+
+class HistJudgeA(RootA):
+    """Part A's oracles for the last use of a history (main result from the reused object)."""
+
+    def __init__(self, real_root, fixed, ctx):
+        RootA.__init__(self, dict(fixed=fixed), ctx)
+        self.root = real_root
+        self.always_welch = True
+        self.history = None
+
+    def mark(self, case):
+        return dict(part="C", history=self.history)
+
+    def viol(self, key, case, **kw):
+        detail = dict(case=case, fixed=self.fixed, sigset=SIGSETS[self.sigs], history=self.history,
+                      construction=HISTORY_TEXT + "window i = signal triple rotated by i, gain (1+i/2)*scale; "
+                                   "signals from hvmc.alphabets.signal(name, L); auxiliary PSDs of the oracle "
+                                   "from fresh settings objects with fft_settings = fixed['fft']")
+        detail.update(kw.pop("detail", {}))
+        if "explanation" in kw:
+            kw["explanation"] = "[settings object used before] " + kw["explanation"]
+        self.ctx.violation(reused_key(key), self.root, detail=detail, **kw)
+
+
+class RootC:
+    def __init__(self, root, ctx):
+        self.root, self.ctx = root, ctx
+        self.kind = root["kind"]
+        self.space = space_c(self.kind, root["tier"])
+        self.judges = {}
+        self.tmp = None
+
+    def out(self, c):
+        return self.kind + ":" + c["out"]
+
+    def fresh(self, c):
+        return build_settings(c["dt"], c["taper"], c["fft"], self.out(c))
+
+    @staticmethod
+    def windows(c):
+        return [window_arrays(c["sigs"], i, c["L"], c["scale"]) for i in range(c["count"])]
+
+    def edit(self, s, prev, cur, mode, repair):
+        if mode == "load":
+            if self.tmp is None:
+                self.tmp = tempfile.mkdtemp(prefix="c17-")
+            path = os.path.join(self.tmp, "settings.json")
+            self.fresh(cur).save(path)
+            s.load(path)
+            return
+        if prev["taper"] != cur["taper"] or repair:
+            edit_list_attr(s, "window_type_and_width", ["tukey", cur["taper"]], mode)
+        sp = None if prev["out"] == "off" else smoothing_spec(prev["out"], prev["dt"])
+        sc = None if cur["out"] == "off" else smoothing_spec(cur["out"], cur["dt"])
+        if sp != sc:
+            if mode == "inplace" and isinstance(s.smoothing, dict) and sc is not None:
+                for k_, v in sc.items():
+                    s.smoothing[k_] = v
+            else:
+                s.smoothing = sc
+        if prev["fft"] != cur["fft"]:
+            edit_fft(s, fft_request(cur["fft"]), mode)
+
+    def judge(self, c, fft):
+        fixed = dict(L=c["L"], dt=c["dt"], sigs=c["sigs"], count=c["count"], fft=fft)
+        key = repr(sorted(fixed.items()))
+        if key not in self.judges:
+            if len(self.judges) >= MAX_JUDGES:
+                self.judges.clear()
+            self.judges[key] = HistJudgeA(self.root, fixed, self.ctx)
+        return self.judges[key]
+
+    def judge_for(self, c, n_main):
+        """The judge whose fresh-object calls use the FFT length of the judged call."""
+        cands = [c["fft"]]
+        if isinstance(n_main, int) and not isinstance(n_main, bool):
+            cands.append(int(n_main))
+        for fft in cands:
+            J = self.judge(c, fft)
+            base = J.unsmoothed(c["taper"], c["scale"])
+            if isinstance(base, Exception) or len(cands) == 1 or base[2] == n_main:
+                J.aux_ok = True
+                return J
+        J = self.judge(c, c["fft"])
+        J.aux_ok = False
+        return J
+
+    def history(self, hist, manner):
+        ctx = self.ctx
+        ctx.count("states")
+        ctx.count("histories")
+        s = self.fresh(hist[0])
+        prev = None
+        res = err = None
+        for i, c in enumerate(hist):
+            if i:
+                if manner["carry"] == "deepcopy":
+                    s = copy.deepcopy(s)
+                repair = manner["interlude"] == "refused"
+                if repair:
+                    refused_call(s, lambda s_, p=prev: hvsrpy.process(make_records(self.windows(p), p["dt"]), s_),
+                                 ctx)
+                self.edit(s, prev, c, manner["edit"], repair)
+            ctx.count("transitions")
+            try:
+                res = hvsrpy.process(make_records(self.windows(c), c["dt"]), s)
+            except Exception as e:          # noqa: BLE001
+                if i < len(hist) - 1:
+                    ctx.count("history_prefix_raised")      # judged as the last use of the shorter history
+                    return
+                err = e
+            prev = c
+        c = hist[-1]
+        n = reported_n(s)
+        J = self.judge_for(c, n)
+        J.history = dict(kind=self.kind, configurations=hist, manner=manner)
+        case = dict(taper=c["taper"], out=self.out(c), scale=c["scale"])
+        kind, op = case["out"].split(":")
+        before = ctx.counters["validated"]
+        if err is not None:
+            if op != "off":
+                exp = J.expected_smoothed(case, kind, op)
+                if exp == "no-kernels":
+                    ctx.count("skipped_no_kernels")
+                    return
+                if exp is not None and exp[1]:
+                    ctx.count("skipped_undefined_reference")
+                    return
+            J.raised(case, err, "last use of the history")
+            return
+        if kind == "psd" and op == "off":
+            J.judge_unsmoothed(case, res, n, self.windows(c))
+        elif kind == "psd":
+            J.judge_smoothed(case, res, op)
+        else:
+            J.judge_diffuse(case, res, op)
+        if ctx.counters["validated"] > before:
+            ctx.count("history_validated")
+            p = hist[-2]
+            if p["L"] == c["L"] and kind == "psd":
+                a, b = RT.mean_square(RT.tukey(c["L"], p["taper"])), RT.mean_square(RT.tukey(c["L"], c["taper"]))
+                if abs(a - b) > 1e-6 * b:
+                    ctx.count("variant_stale_taper_norm_differs")
+            if n != expected_n(c["L"], c["fft"]):
+                ctx.count("history_fft_length_carried")
+
+    def close(self):
+        if self.tmp is not None:
+            shutil.rmtree(self.tmp, ignore_errors=True)
+
+
+def run_root_c(root, ctx, tier):
+    r = RootC(root, ctx)
+    try:
+        for hist, manner in histories(r.space, list(r.space), MANNER_C, root["first"], root["length"],
+                                      root["k"]):
+            r.history(hist, manner)
+    finally:
+        r.close()
+
+
+class HistJudgeB(RootB):
+    def __init__(self, real_root, fixed, ctx):
+        RootB.__init__(self, dict(fixed=fixed), ctx)
+        self.root = real_root
+        self.history = None
+
+    def mark(self, case):
+        return dict(part="D", history=self.history)
+
+    def viol(self, key, case, **kw):
+        detail = dict(case=case, fixed=self.fixed, response=self.resp, history=self.history,
+                      construction=HISTORY_TEXT + "record r, component c: see hvmc.checks.c17.pre_series; "
+                                   "settings: orient None, no filter, window_length None")
+        detail.update(kw.pop("detail", {}))
+        if "explanation" in kw:
+            kw["explanation"] = "[settings object used before] " + kw["explanation"]
+        self.ctx.violation(reused_key(key), self.root, detail=detail, **kw)
+
+
+class RootD:
+    def __init__(self, root, ctx):
+        self.root, self.ctx = root, ctx
+
+    @staticmethod
+    def fresh(c):
+        return build_pre_settings(c["dt"], c["fft"], c["taper"], c["response"], c["differentiate"],
+                                  c["detrend"])
+
+    @staticmethod
+    def edit(s, prev, cur, mode, repair):
+        if prev["detrend"] != cur["detrend"]:
+            s.detrend = cur["detrend"]
+        if prev["taper"] != cur["taper"] or repair:
+            edit_list_attr(s, "window_type_and_width", ["tukey", cur["taper"]], mode)
+        if prev["fft"] != cur["fft"]:
+            edit_fft(s, fft_request(cur["fft"]), mode)
+        if response_spec(prev["response"], prev["dt"]) != response_spec(cur["response"], cur["dt"]):
+            s.instrument_transfer_function = make_itf(response_spec(cur["response"], cur["dt"]))
+        if prev["differentiate"] != cur["differentiate"]:
+            s.differentiate = cur["differentiate"]
+
+    def history(self, hist, manner):
+        ctx = self.ctx
+        ctx.count("states")
+        ctx.count("histories")
+        s = self.fresh(hist[0])
+        prev = None
+        for i, c in enumerate(hist[:-1]):
+            if i:
+                if manner["carry"] == "deepcopy":
+                    s = copy.deepcopy(s)
+                self.edit(s, prev, c, manner["edit"], False)
+            ctx.count("transitions")
+            try:
+                hvsrpy.preprocess(pre_inputs(c["signal"], c["offset"], c["L"], c["dt"])[1], s)
+            except Exception:               # noqa: BLE001
+                ctx.count("history_prefix_raised")          # judged as the last use of the shorter history
+                return
+            prev = c
+        c = hist[-1]
+        if manner["carry"] == "deepcopy":
+            s = copy.deepcopy(s)
+        repair = manner["interlude"] == "refused"
+        if repair:
+            refused_call(s, lambda s_, p=prev: hvsrpy.preprocess(
+                pre_inputs(p["signal"], p["offset"], p["L"], p["dt"])[1], s_), ctx)
+        self.edit(s, prev, c, manner["edit"], repair)
+        J = HistJudgeB(self.root, {d: c[d] for d in ROOT_DIMS_B}, ctx)
+        J.history = dict(configurations=hist, manner=manner)
+        case = {d: c[d] for d in SPACE_B if d not in ROOT_DIMS_B}
+        series, records = pre_inputs(c["signal"], c["offset"], c["L"], c["dt"])
+        if J.execute(case, series, records, s):
+            ctx.count("history_validated")
+            n = reported_n(s)
+            if n != expected_n(c["L"], c["fft"]):
+                ctx.count("history_fft_length_carried")
+
+
+def run_root_d(root, ctx, tier):
+    r = RootD(root, ctx)
+    for hist, manner in histories(space_d(root["tier"]), step_dims_d(root["tier"]), MANNER_D,
+                                  root["first"], root["length"], root["k"]):
+        r.history(hist, manner)
+
+
+def _history_roots(tier):
+    h = HIST[tier]
+    out = []
+    for length, kf, ks in ((2, h["first2"], h["step2"]), (3, h["first3"], h["step3"])):
+        for kind in ("psd", "diffuse"):
+            for first in product.deviations(space_c(kind, tier), kf):
+                out.append(dict(part="C", tier=tier, kind=kind, first=first, length=length, k=ks))
+        for first in product.deviations(space_d(tier), kf):
+            out.append(dict(part="D", tier=tier, first=first, length=length, k=ks))
+    return out
+
+
+def history_bounds(tier):
+    h = HIST[tier]
+    out = {}
+    for length, kf, ks in ((2, h["first2"], h["step2"]), (3, h["first3"], h["step3"])):
+        for kind in ("psd", "diffuse"):
+            sp = space_c(kind, tier)
+            out["C_%s_length%d" % (kind, length)] = dict(
+                first=product.size(sp, kf), per_first=n_histories(sp, list(sp), MANNER_C, length, ks))
+        sp = space_d(tier)
+        out["D_length%d" % length] = dict(
+            first=product.size(sp, kf), per_first=n_histories(sp, step_dims_d(tier), MANNER_D, length, ks))
+    return out
+
+
+# ---------------------------------------------------------------------------
 # runner interface
 
 def _roots_of(space, root_dims, part, tier, k):
@@ -799,14 +1267,12 @@ def _roots_of(space, root_dims, part, tier, k):
 def roots(tier, seed):
     k = None if tier == "thorough" else K_QUICK
     return (_roots_of(tier_space(SPACE_A, tier), ROOT_DIMS_A, "A", tier, k)
-            + _roots_of(SPACE_B, ROOT_DIMS_B, "B", tier, k))
+            + _roots_of(SPACE_B, ROOT_DIMS_B, "B", tier, k)
+            + _history_roots(tier))
 
 
 def run_root(root, ctx, tier):
-    if root["part"] == "A":
-        run_root_a(root, ctx, tier)
-    else:
-        run_root_b(root, ctx, tier)
+    {"A": run_root_a, "B": run_root_b, "C": run_root_c, "D": run_root_d}[root["part"]](root, ctx, tier)
 
 
 def warm():
@@ -822,7 +1288,11 @@ def warm():
 NONVACUITY = ("variant_no_taper_norm_differs", "variant_div_n_differs",
               "variant_sum_not_mean_differs", "variant_identity_differs", "analytic_compared",
               "explicit_compared", "welch_compared", "scale_compared",
-              "diffuse_scale_invariance_compared")
+              "diffuse_scale_invariance_compared",
+              # parts C / D: histories were judged, the stale-taper normalisation would have differed,
+              # refused interludes were refused, an FFT length written back by an earlier use was met
+              "history_validated", "variant_stale_taper_norm_differs", "refused_calls",
+              "history_fft_length_carried")
 
 
 def finalize(ctx, tier):
@@ -847,10 +1317,21 @@ def describe(tier):
              "components per call; "
              + ("every case within %d deviations from the first value of each dimension" % k if k
                 else "the full product of both spaces")
+             + "; C / D = histories use-edit-use[-edit-use] on ONE PsdProcessingSettings / "
+               "HvsrDiffuseFieldProcessingSettings (C) or PsdPreProcessingSettings (D) object: configurations "
+               "c1, c2[, c3] (c1 within first2 / first3 deviations of the default, length 2: (c2, manner) within "
+               "step2 deviations of (c1, default manner), length 3: each step within step3 deviations, default "
+               "manner); manner = how the attributes are edited (assign | inplace | load), what is carried "
+               "(the object | its deepcopy) and whether a refused call lies in between; the last use of every "
+               "history is judged by the oracles of A / B of its configuration (auxiliary PSDs from fresh "
+               "settings objects with the FFT length the judged call reports); the sets are prefix closed"
              + "; a case is non-trivial/distinct by its (part, dimension values) and counted when every "
                "comparison of that case was made against the reference",
         bounds=dict(space_A={d: v for d, v in sa.items()}, space_B=SPACE_B,
                     deviation_bound=k, size_A=product.size(sa, k), size_B=product.size(SPACE_B, k),
+                    space_C=dict(space_c("psd", tier), out=OUT_C), manner_C=MANNER_C,
+                    space_D=space_d(tier), step_dims_D=step_dims_d(tier), manner_D=MANNER_D,
+                    history_deviation_bounds=HIST[tier], histories=history_bounds(tier),
                     rtol=RTOL),
         exhaustive=True,
         assumptions=[
@@ -866,6 +1347,12 @@ def describe(tier):
             "expected series is the explicit DFT of the detrended, tapered, padded series (Hermitian "
             "convention, 0 Hz bin dropped)",
             "orientation, filtering and window splitting are switched off in preprocessing (C10 covers them)",
+            "histories (C / D): an edit touches only the attributes whose value changes, so an FFT length that an "
+            "earlier use wrote into settings.fft_settings stays in force (how {'n': None} is re-resolved is C09's "
+            "subject); every oracle uses the length the judged call reports, and the fresh-object auxiliary calls "
+            "request that length; only the last use of a history is judged (hvsrpy is deterministic and every "
+            "proper prefix is a history of the enumerated set or a case of A / B); a history whose earlier use "
+            "raises is dropped and counted (history_prefix_raised)",
             "amplitude scales 1e-12 .. 1e9: squares stay within 1e-24 .. 1e18 times the O(1) signal power, i.e. "
             "no underflow/overflow in double precision; every tolerance is relative to the power of the case, so "
             "an absolute floor or threshold in the PSD / diffuse-field path is a violation, not a tolerance",
